@@ -4,6 +4,8 @@ import PdModel.Proto
 
 * `content|attr|cdata|comment|encode|attval|neutralise s`      → `ok <s'>`
 * `starttag tag name value` (docutils start tag with one attribute)   → `ok <s'>`
+* `sigdefault s` (`flatten(format_signature(f))` for `def f(a=<str s>)`), `quote s`, `url <0|1> page (anchor|-)`,
+  `taglinkhref page url`, `starttagclass tag v`, `starttaghref v`, `valididcss s`   → `ok <s'>`
 * `unescape s`                                                 → `ok <s'>` | `malformed`
 * `html2stan s`  (markup-free html → `flatten(html2stan(s))`)  → `ok <s'>` | `SAXParseException`
 * `doublepath s` (text → docutils `encode` → `html2stan` → flatten) → `ok <s'>` | `SAXParseException`
@@ -109,6 +111,22 @@ def handle (args : List String) : String :=
       | .ok t => okStr t
       | .error _ => "ValueError"
     | _, _, _, _, _, _ => "bad-op"
+  | "sigdefault" :: r => str1 (fun s => okStr (formatSigDefault s)) r
+  | "quote" :: r => str1 (fun s => okStr (quote s)) r
+  | ["url", root, page, anchor] =>
+    match Proto.decodeStr page, (if anchor == "-" then some none else (Proto.decodeStr anchor).map some) with
+    | some p, some a => okStr (docUrl (root == "1") p a)
+    | _, _ => "bad-op"
+  | ["taglinkhref", page, url] =>
+    match Proto.decodeStr page, Proto.decodeStr url with
+    | some p, some u => okStr (taglinkHref p u)
+    | _, _ => "bad-op"
+  | ["starttagclass", t, v] =>
+    match Proto.decodeStr t, Proto.decodeStr v with
+    | some t, some v => okStr (starttagClass t v)
+    | _, _ => "bad-op"
+  | "starttaghref" :: r => str1 (fun s => okStr (starttagHref s)) r
+  | "valididcss" :: r => str1 (fun s => okStr (validIdentifierCss s)) r
   | "sanitise" :: r => str1 (fun s => okStr (sanitise true s)) r
   | "sanitiseold" :: r => str1 (fun s => okStr (sanitise false s)) r
   | "literal" :: r => str1 (fun s => match interpolatedLiteral s with
